@@ -148,3 +148,13 @@ func errText(msg string, err error) string {
 	}
 	return msg
 }
+
+// envFail: the property's fixed environment (segments built, persisted, loaded or observed from
+// fixed valid inputs before any exploration starts) could not be set up by the code under test.
+// That is a failure of the current tree on valid input, not of the harness: it is reported as a
+// violation (and replays as one), so that a change which breaks the environment itself is detected
+// rather than turning the check into a harness error.
+func envFail(c *explore.Ctx, what string) {
+	c.Eval()
+	c.Violate("ENV", 0, sigOf(c.Prop, "environment", "error: "+what), what, "environment set-up from fixed valid inputs")
+}
